@@ -2,6 +2,7 @@
 import lib_C09 as L
 
 ID = "C09"
+PROOF_FILES = ["C09", "C09Inv", "C09Names", "C09Reach", "C09Sign", "C09Rel", "C09Two", "C09Pipe"]
 THEOREM = ("Ufo2ft.C09.C09_joint / C09_joint_step / C09_decompose / C09_skipExport / C09_flatten / C09_pipeline_otf / "
            "C09_cu2qu_partial / C09_sparse_partial / C09_placeholders / C09_notdef / C09_sign_witness "
            "(+ reverseContour_shape, decomposeGlyph_shape, flattenGlyphComps_shape: the operations act on shapes)")
@@ -87,6 +88,14 @@ def run(case):
 
 def agree(req, rep):
     m, o = rep["model"], req["obs"]
+    # which pipeline-level theorems apply to this family (decidable hypotheses evaluated by the driver): shown in the evidence
+    hyp = (rep.get("info") or {}).get("hyp") if isinstance(rep.get("info"), dict) else None
+    if hyp and not any(t.startswith("thm:") for t in req.get("tags", [])):
+        for k in ("C09_sparse", "C09_twoByTwo", "C09_pipeline_inst_partial"):
+            req["tags"].append("thm:%s:%s" % (k, "applies" if hyp.get(k) else "hypotheses-not-met"))
+        for k in ("signStable", "signsEqualNonzero", "alike", "cu2quOk", "heightsBelow", "fullMastersFull", "notdefOk", "ordersCover"):
+            if not hyp.get(k):
+                req["tags"].append("hyp-false:" + k)
     if req["op"] == "needs":
         return m == o
     if m.get("err") is not None or o.get("err") is not None:
